@@ -155,7 +155,15 @@ def run(ctx, flavour="static"):
         if not os.environ.get("VERIF_KEEP_TRACES"):
             try: os.remove(r["path"])
             except OSError: pass
-    out = dict(diffs=diffs[:200], ndiffs=len(diffs), vlines=vlines[:200], nv=len(vlines), stats=stats, crashed=crashed,
+    # keep at most 12 oracle lines per (property, class) so that a frequent class cannot push the others out of the cap
+    _per, _kept = {}, []
+    for v in vlines:
+        m = re.search(r" V (\S+) (\S+)", v)
+        k = (m.group(1), m.group(2)) if m else ("?", "?")
+        _per[k] = _per.get(k, 0) + 1
+        if _per[k] <= 12:
+            _kept.append(v)
+    out = dict(diffs=diffs[:200], ndiffs=len(diffs), vlines=_kept[:400], nv=len(vlines), stats=stats, crashed=crashed,
                cases=cases, samples=samples, window=window, sim_args=[str(a) for a in sim_args], shards=shards,
                sim_s=max(r["sim_s"] for r in res), run_s=max(r["run_s"] for r in res), key=key)
     json.dump(out, open(summ, "w"))
@@ -231,11 +239,13 @@ def coverage_from(res, rule_extra=""):
 
 def findings_for(res, pid, key_prefixes=None):
     """oracle findings (V lines of this property) and correspondence diffs (filtered by observable key)"""
-    findings = []
+    findings, per = [], {}
     for v in res["vlines"]:
         m = re.search(r" V (\S+) (\S+) (.*)$", v)
         if m and m.group(1) == pid:
-            findings.append(dict(cls=m.group(2), key=m.group(3)[:200], detail=v))
+            per[m.group(2)] = per.get(m.group(2), 0) + 1
+            if per[m.group(2)] <= 3:      # a frequent class must not crowd out the others
+                findings.append(dict(cls=m.group(2), key=m.group(3)[:200], detail=v))
     diffs = []
     for d in res["diffs"]:
         if key_prefixes is None:
